@@ -4,7 +4,16 @@ import os, sys
 sys.path.insert(0, os.path.join(os.path.dirname(os.path.abspath(__file__)), "..", "tools"))
 from vlib import *
 
-OVERLAY = {"p2p/security/noise/zz_c02_verif_test.go": "harness/overlay/noise/c02_verif_test.go"}
+OVERLAY = {"p2p/security/noise/zz_c02_verif_test.go": "harness/overlay/noise/c02_verif_test.go",
+           "p2p/net/pnet/zz_c02_verif_test.go": "harness/overlay/c02/pnet_verif_test.go",
+           "p2p/transport/tcpreuse/internal/sampledconn/zz_c02_verif_test.go": "harness/overlay/c02/sampled_verif_test.go",
+           "p2p/security/tls/zz_c02_verif_test.go": "harness/overlay/c02/tls_verif_test.go",
+           "p2p/muxer/yamux/zz_c02_verif_test.go": "harness/overlay/c02/yamux_verif_test.go",
+           "zz_c02_host_verif_test.go": "harness/overlay/c02/host_verif_test.go"}
+
+SUITES = [("p2p/security/noise", "TestVerifC02Noise$"), ("p2p/net/pnet", "TestVerifC02Pnet$"),
+          ("p2p/transport/tcpreuse/internal/sampledconn", "TestVerifC02Sampled$"), ("p2p/security/tls", "TestVerifC02TLS$"),
+          ("p2p/muxer/yamux", "TestVerifC02Yamux$"), (".", "TestVerifC02Host$")]
 
 
 def consts(ctx):
@@ -14,14 +23,36 @@ def consts(ctx):
 
 
 def harness(ctx, casefile, tier, seed):
-    return ctx.go_test("p2p/security/noise", "TestVerifC02Noise$", OVERLAY,
-                       env={"VERIF_OUT": casefile, "VERIF_TIER": tier, "VERIF_SEED": str(seed)}, timeout=2400)
+    """one go test per stack, each writing its own case file; concatenated"""
+    rc_all, out_all = 0, ""
+    parts = []
+    cov = {}
+    for pkg, run in SUITES:
+        part = casefile + "." + run.strip("$")
+        for p in (part, part + ".cov"):
+            if os.path.exists(p):
+                os.remove(p)
+        rc, out = ctx.go_test(pkg, run, OVERLAY, env={"VERIF_OUT": part, "VERIF_TIER": tier, "VERIF_SEED": str(seed)}, timeout=2400)
+        if rc != 0 or not os.path.exists(part):
+            rc_all = rc or 1
+            out_all += "\n== %s %s rc=%d\n%s" % (pkg, run, rc, out[-1500:])
+        if os.path.exists(part):
+            parts.append(part)
+            cov.update(read_cov(part))
+    with open(casefile, "w") as f:
+        for p in parts:
+            f.write(open(p).read())
+    with open(casefile + ".cov", "w") as f:
+        for k in sorted(cov):
+            f.write("%s %d\n" % (k, cov[k]))
+    return rc_all, out_all
 
 
 def warm(ctx):
-    rc, out = ctx.go_test("p2p/security/noise", "TestVerifNothing$", OVERLAY, timeout=1500)
-    if rc != 0:
-        ctx.obligations.append(("harness:compile", False, out[-1500:]))
+    for pkg, run in SUITES:
+        rc, out = ctx.go_test(pkg, "TestVerifNothing$", OVERLAY, timeout=1500)
+        if rc != 0:
+            ctx.obligations.append(("harness:compile:" + pkg, False, out[-1500:]))
 
 
 EK = {0: "none", 1: "alter", 2: "truncate/misalign", 3: "drop", 4: "duplicate", 5: "swap"}
@@ -34,7 +65,7 @@ def describe(t):
         ek, ei, cl, nr = t[3 + w:7 + w]
         reads = t[7 + w:]
         rs = [{"buf": reads[i], "res": {0: "data", 1: "EOF", 2: "error"}.get(reads[i + 1]), "n": reads[i + 2], "ok": reads[i + 3]} for i in range(0, min(len(reads), 4 * 12), 4)]
-        return {"stack": {1: "noise"}.get(t[0], t[0]), "writer_is_responder": t[1], "writes": wl, "edit": EK.get(ek, ek), "frame": ei, "reads(first 12)": rs, "reads_total": nr}
+        return {"stack": {1: "noise", 2: "tls", 3: "pnet", 4: "sampledconn (cfg: 0 Read, 1 io.Copy, 2 Read then io.Copy)", 5: "yamux stream", 6: "host stream (TCP+noise/tls+yamux)"}.get(t[0], t[0]), "writer_is_responder": t[1], "writes": wl, "edit": EK.get(ek, ek), "frame": ei, "reads(first 12)": rs, "reads_total": nr}
     except Exception:
         return {"raw": t[:60]}
 
@@ -43,7 +74,7 @@ def nontrivial(line):
     t = line.split()
     w = int(t[2])
     tot = sum(int(x) for x in t[3:3 + w])
-    return tot > 65519 or t[3 + w] != b"0"   # more than one frame, or tampered
+    return tot > 65519 or t[3 + w] != b"0" or t[0] != b"1"   # more than one frame, tampered, or another stack
 
 
 def key(tag, toks, d):
@@ -72,6 +103,9 @@ if __name__ == "__main__":
         rule="real Noise sessions over an in-memory connection with a frame-aware proxy: every boundary payload length (0,1,..,65518..65520,65534..65536,131037..131039,3*65519+1) x every buffer size "
              "(2..17, 65518..65520, 65534..65536, 70000), random splits into <=4 writes with mixed buffer patterns, short-read patterns on the raw connection, both directions; "
              "tampering: for every frame of multi-frame payloads, byte flips (first/last/middle ciphertext byte, length prefix), truncation by 1/16/17 bytes, drop, duplicate, swap. "
-             "Each Read's (result, n, content-matches-written-stream) is compared with the Coq model of rw.go and judged by the byte-fidelity monitor. Non-trivial = more than one frame or tampered.",
-        describe=describe, key=key, what=what, crosscheck=40,
+             "Each Read's (result, n, content-matches-written-stream) is compared with the Coq model of rw.go and judged by the byte-fidelity monitor. "
+             "Other stacks (monitor only): TLS sessions, PSK (pnet) connections over TCP with short reads, tcpreuse sampled connections read through Read, io.Copy and both, "
+             "1-5 concurrent yamux streams per connection in both directions with half-close followed by further reads/writes, and host-to-host streams (TCP + Noise or TLS + yamux). "
+             "Non-trivial = more than one Noise frame, tampered, or a non-Noise stack.",
+        describe=describe, key=key, what=what, crosscheck=15,
     ))
